@@ -56,8 +56,4 @@ def readUntilEv (P : Bytes → Bool) : List Ev → Bytes → Option (RRes × Lis
     let rb' := rb ++ c
     if P rb' then some (.ok rb', es) else readUntilEv P es rb'
 
-/-- `ReadUntilAnyPrompt`'s predicate: some pattern matches the search window -/
-def anyPromptPred (depth : Nat) (prompts : List (Bytes → Bool)) (rb : Bytes) : Bool :=
-  prompts.any fun p => p (window rb depth)
-
 end Scrapli.Chan
